@@ -1,49 +1,92 @@
-//! C07: Rational<i64> against exact i128 cross-multiplication. input encoding: "a;b;c;d"
+//! C07: Rational<T> for T = i64, i32, i128 against exact i128 cross-multiplication: every operator form (by value, by reference, assigning),
+//! canonical form (lowest terms, positive denominator), ordering through `cmp`, `partial_cmp` and the comparison operators, `==` and hashing.
+//! input encoding: "a;b;c;d" (i64)  |  "<type>;a;b;c;d"
 use crate::{guarded, Cex, Outcome};
 use rlib_rational::Rational;
 use std::cmp::Ordering;
+use std::collections::hash_map::DefaultHasher;
+use std::hash::{Hash, Hasher};
 
 fn g(a: i128, b: i128) -> i128 { let (mut a, mut b) = (a.abs(), b.abs()); while b != 0 { let t = a % b; a = b; b = t; } a }
 fn canon(n: i128, d: i128) -> (i128, i128) { let k = g(n, d); let (mut n, mut d) = (n / k, d / k); if d < 0 { n = -n; d = -d; } (n, d) }
+fn hash_of<T: Hash>(x: &T) -> u64 { let mut h = DefaultHasher::new(); x.hash(&mut h); h.finish() }
 
-fn check(a: i64, b: i64, c: i64, d: i64) -> Option<Cex> {
-    if b == 0 || d == 0 { return None; }
-    let (ai, bi, ci, di) = (a as i128, b as i128, c as i128, d as i128);
-    let r = guarded(|| {
-        let (x, y) = (Rational::<i64>::new(a, b), Rational::<i64>::new(c, d));
-        let f = |r: Rational<i64>| (r.a as i128, r.b as i128);
-        let mut v = vec![("new", f(x), canon(ai, bi)), ("add", f(x + y), canon(ai * di + ci * bi, bi * di)), ("add&", f(x + &y), canon(ai * di + ci * bi, bi * di)),
-            ("sub", f(x - y), canon(ai * di - ci * bi, bi * di)), ("mul", f(x * y), canon(ai * ci, bi * di)), ("neg", f(-x), canon(-ai, bi))];
-        if c != 0 { v.push(("div", f(x / y), canon(ai * di, bi * ci))); let mut t = x; t /= y; v.push(("div_assign", f(t), canon(ai * di, bi * ci))); }
-        let mut t = x; t += y; v.push(("add_assign", f(t), canon(ai * di + ci * bi, bi * di)));
-        let mut t = x; t -= &y; v.push(("sub_assign&", f(t), canon(ai * di - ci * bi, bi * di)));
-        let mut t = x; t *= y; v.push(("mul_assign", f(t), canon(ai * ci, bi * di)));
-        let (n, dd) = canon(ai, bi);
-        v.push(("floor", f(x.floor()), (n.div_euclid(dd), 1)));
-        v.push(("ceil", f(x.ceil()), (-((-n).div_euclid(dd)), 1)));
-        let lhs = ai * di * (if bi * di < 0 { -1 } else { 1 }); let rhs = ci * bi * (if bi * di < 0 { -1 } else { 1 });
-        let ord = lhs.cmp(&rhs);
-        let got = x.cmp(&y);
-        let eq = x == y;
-        (v, ord, got, eq)
-    });
-    let mk = |o: String, e: String| Some(Cex { input: format!("{};{};{};{}", a, b, c, d), observed: format!("x={}/{} y={}/{}: {}", a, b, c, d, o), expected: e });
-    match r {
-        Err(e) => mk(e, "no panic".into()),
-        Ok((v, ord, got, eq)) => {
-            if let Some((n, g_, w)) = v.into_iter().find(|(_, g_, w)| g_ != w) { return mk(format!("{} gave {:?}", n, g_), format!("{:?}", w)); }
-            if ord != got { return mk(format!("cmp gave {:?}", got), format!("{:?}", ord)); }
-            if eq != (ord == Ordering::Equal) { return mk(format!("== gave {}", eq), format!("{}", ord == Ordering::Equal)); }
-            None
+macro_rules! checker {
+    ($name:ident, $t:ty, $tn:expr) => {
+        fn $name(a: i64, b: i64, c: i64, d: i64) -> Option<Cex> {
+            if b == 0 || d == 0 { return None; }
+            let (ai, bi, ci, di) = (a as i128, b as i128, c as i128, d as i128);
+            let (a, b, c, d) = (a as $t, b as $t, c as $t, d as $t);
+            let mk = |o: String, e: String| Some(Cex { input: format!("{};{};{};{};{}", $tn, a, b, c, d), observed: format!("Rational<{}> x={}/{} y={}/{}: {}", $tn, a, b, c, d, o), expected: e });
+            let r = guarded(|| {
+                let (x, y) = (Rational::<$t>::new(a, b), Rational::<$t>::new(c, d));
+                let f = |r: Rational<$t>| (r.a as i128, r.b as i128);
+                let sum = canon(ai * di + ci * bi, bi * di);
+                let dif = canon(ai * di - ci * bi, bi * di);
+                let prd = canon(ai * ci, bi * di);
+                let mut v = vec![("new", f(x), canon(ai, bi)), ("x + y", f(x + y), sum), ("x + &y", f(x + &y), sum), ("x - y", f(x - y), dif), ("x - &y", f(x - &y), dif),
+                    ("x * y", f(x * y), prd), ("x * &y", f(x * &y), prd), ("-x", f(-x), canon(-ai, bi))];
+                let mut t = x; t += y; v.push(("x += y", f(t), sum));
+                let mut t = x; t += &y; v.push(("x += &y", f(t), sum));
+                let mut t = x; t -= y; v.push(("x -= y", f(t), dif));
+                let mut t = x; t -= &y; v.push(("x -= &y", f(t), dif));
+                let mut t = x; t *= y; v.push(("x *= y", f(t), prd));
+                let mut t = x; t *= &y; v.push(("x *= &y", f(t), prd));
+                if ci != 0 {
+                    let quo = canon(ai * di, bi * ci);
+                    v.push(("x / y", f(x / y), quo)); v.push(("x / &y", f(x / &y), quo));
+                    let mut t = x; t /= y; v.push(("x /= y", f(t), quo));
+                    let mut t = x; t /= &y; v.push(("x /= &y", f(t), quo));
+                }
+                let (n, dd) = canon(ai, bi);
+                v.push(("floor", f(x.floor()), (n.div_euclid(dd), 1)));
+                v.push(("ceil", f(x.ceil()), (-((-n).div_euclid(dd)), 1)));
+                // results of arithmetic are structurally equal to (and hash like) the freshly constructed canonical value
+                let fresh = Rational::<$t>::new(prd.0 as $t, prd.1 as $t);
+                let mut t = x; t *= &y;
+                let structural = (t == fresh, hash_of(&t) == hash_of(&fresh), (x * y) == fresh, hash_of(&(x * y)) == hash_of(&fresh));
+                let s = if bi * di < 0 { -1 } else { 1 };
+                let ord = (ai * di * s).cmp(&(ci * bi * s));
+                let rel = (x.cmp(&y), x.partial_cmp(&y), x < y, x <= y, x > y, x >= y, x == y, x != y, f(x.max(y)), f(x.min(y)), hash_of(&x) == hash_of(&y));
+                (v, structural, ord, rel)
+            });
+            match r {
+                Err(e) => mk(e, "no panic".into()),
+                Ok((v, structural, ord, rel)) => {
+                    if let Some((n, g_, w)) = v.into_iter().find(|(_, g_, w)| g_ != w) { return mk(format!("{} gave {:?}", n, g_), format!("{:?} (lowest terms, positive denominator)", w)); }
+                    if structural != (true, true, true, true) { return mk(format!("(x *= &y) == new(p, q), same hash, (x * y) == new(p, q), same hash = {:?}", structural), "all true".into()); }
+                    let (big, small) = if ord == Ordering::Less { (canon(ci, di), canon(ai, bi)) } else { (canon(ai, bi), canon(ci, di)) };
+                    let want = (ord, Some(ord), ord == Ordering::Less, ord != Ordering::Greater, ord == Ordering::Greater, ord != Ordering::Less, ord == Ordering::Equal, ord != Ordering::Equal, big, small);
+                    let got = (rel.0, rel.1, rel.2, rel.3, rel.4, rel.5, rel.6, rel.7, rel.8, rel.9);
+                    if got != want { return mk(format!("(cmp, partial_cmp, <, <=, >, >=, ==, !=, max, min) = {:?}", got), format!("{:?}", want)); }
+                    if ord == Ordering::Equal && !rel.10 { return mk("numerically equal values hash differently".into(), "equal hashes".into()); }
+                    None
+                }
+            }
         }
-    }
+    };
 }
+checker!(check_i64, i64, "i64");
+checker!(check_i32, i32, "i32");
+checker!(check_i128, i128, "i128");
 
 pub fn run(_seed: u64, replay: Option<String>) -> Outcome {
-    if let Some(r) = replay { let p: Vec<i64> = r.split(';').map(|x| x.parse().unwrap_or(1)).collect(); return Outcome { cex: check(p[0], p[1], p[2], p[3]), cases: 1 }; }
+    if let Some(r) = replay {
+        let p: Vec<&str> = r.split(';').collect();
+        let (ty, rest) = if p[0].starts_with('i') { (p[0], &p[1..]) } else { ("i64", &p[..]) };
+        let n: Vec<i64> = rest.iter().map(|x| x.parse().unwrap_or(1)).collect();
+        let c = match ty { "i32" => check_i32(n[0], n[1], n[2], n[3]), "i128" => check_i128(n[0], n[1], n[2], n[3]), _ => check_i64(n[0], n[1], n[2], n[3]) };
+        return Outcome { cex: c, cases: 1 };
+    }
     let mut cases = 0;
-    for a in -6..=6i64 { for b in -6..=6i64 { for c in -6..=6i64 { for d in -6..=6i64 { cases += 1; if let Some(x) = check(a, b, c, d) { return Outcome { cex: Some(x), cases }; } } } } }
-    let big = [1i64 << 30, -(1 << 30), (1 << 30) - 1, 1073741789, -1073741789, 3, -2];
-    for &a in &big { for &b in &big { for &c in &big { for &d in &big { cases += 1; if let Some(x) = check(a, b, c, d) { return Outcome { cex: Some(x), cases }; } } } } }
+    for a in -6..=6i64 { for b in -6..=6i64 { for c in -6..=6i64 { for d in -6..=6i64 {
+        cases += 3;
+        if let Some(x) = check_i64(a, b, c, d).or_else(|| check_i32(a, b, c, d)).or_else(|| check_i128(a, b, c, d)) { return Outcome { cex: Some(x), cases }; }
+    } } } }
+    let big = [1i64 << 30, -(1 << 30), (1 << 30) - 1, 1073741789, -1073741789, 3, -2, 0];
+    for &a in &big { for &b in &big { for &c in &big { for &d in &big { cases += 2; if let Some(x) = check_i64(a, b, c, d).or_else(|| check_i128(a, b, c, d)) { return Outcome { cex: Some(x), cases }; } } } } }
+    // i32: products of two operands must fit (|values| <= 2^14 with shared factors)
+    let mid = [1i64 << 14, -(1 << 14), 16381, -16381, 12, -18, 0, 7];
+    for &a in &mid { for &b in &mid { for &c in &mid { for &d in &mid { cases += 1; if let Some(x) = check_i32(a, b, c, d) { return Outcome { cex: Some(x), cases }; } } } } }
     Outcome { cex: None, cases }
 }
